@@ -340,6 +340,7 @@ def snippet(fn: ast.FunctionDef, targets: list[str], inputs: list[str], lean_nam
 # `M.Transc`; tensors are translated element-wise (broadcasting helpers such as `unsqueeze_right(x, n)` are the identity
 # per element), `x ** 2` is `sq x`
 
+CALL_HOOKS: list = []
 _TRANSC = {'exp': 'exp', 'log': 'log', 'cos': 'cos', 'sin': 'sin', 'sqrt': 'sqrt', 'sinc': 'sinc'}
 
 
@@ -376,6 +377,10 @@ def fexpr(node, ctx: Ctx, poisoned: set) -> str:
         return f'({a} {op} {b})'
     if isinstance(node, ast.Call):
         f = node.func
+        for hook in CALL_HOOKS:  # site-specific primitives (empty unless a translator installs some)
+            r = hook(node, ctx, poisoned)
+            if r is not None:
+                return r
         if isinstance(f, ast.Name) and f.id in ('unsqueeze_right', 'unsqueeze_left') and node.args:
             return fexpr(node.args[0], ctx, poisoned)
         if isinstance(f, ast.Attribute) and isinstance(f.value, ast.Name) and f.value.id == 'torch' and f.attr in _TRANSC and len(node.args) == 1:
@@ -407,6 +412,8 @@ def float_function(fn: ast.FunctionDef, inputs: list[str], lean_name: str):
     for st in fn.body:
         if isinstance(st, ast.Expr) and isinstance(st.value, ast.Constant):
             continue
+        if isinstance(st, ast.Expr) and isinstance(st.value, ast.Call) and ast.unparse(st.value.func).startswith('self._throw_if_'):
+            continue  # a guard that only raises: no effect on the value computed
         if isinstance(st, ast.Assign) and len(st.targets) == 1 and isinstance(st.targets[0], ast.Name):
             name = st.targets[0].id
             try:
